@@ -1603,6 +1603,13 @@ func (stmt *UpsertIntoStmt) execAt(ctx context.Context, tx *SQLTx, params map[st
 						}
 					}
 				}
+
+				// the row built by DO UPDATE is the one that gets stored: it must
+				// satisfy the CHECK constraints as well (the check above only saw
+				// the row of the INSERT attempt)
+				if err := checkConstraints(tx, table.checkConstraints, r, table.name); err != nil {
+					return nil, err
+				}
 			}
 		}
 
